@@ -36,7 +36,11 @@ R = Registry(
         "deleted = original-current keyed by the same identity function, and PendingCollection.append/remove "
         "cancel each other; (R5) flush / load reset the history: _commit_all_states and _commit drop committed_state "
         "entries unconditionally, set_committed_value commits what it stores, Session._register_persistent commits "
-        "the flushed states."
+        "the flushed states; (R6) every instrumentation wrapper of orm/collections.py reaches the hook chain that "
+        "snapshots the live collection (helper -> CollectionAdapter.fire_* -> _CollectionAttributeImpl.fire_* -> "
+        "_modified_event(collection=True)) BEFORE the wrapped method mutates the collection, never only afterwards; "
+        "(R7) an original of an object reference / collection that is obtained through a loader callable and then "
+        "recorded is loaded with LOAD_AGAINST_COMMITTED (evaluated over the PassiveFlag bit table)."
     ),
     not_decided=(
         "attribute values: user-defined compare/copy functions, what get() returns for expired or unloaded "
@@ -1322,6 +1326,103 @@ def r7(ctx):
     ctx.require(n_inst >= 1, "no loader-obtained original found in the object-reference implementations")
 
 
+# ------------------------------------------------------------------------------------------ R8 (str2-p)
+#: mappings that have an entry for every key committed_state can hold, with the reason
+TOTAL_OVER_HISTORY_KEYS = {
+    "manager": "ClassManager maps every instrumented attribute key; committed_state keys are instrumented attribute keys",
+}
+HISTORY_CONSUMERS = ("orm/persistence.py", "orm/sync.py", "orm/unitofwork.py", "orm/dependency.py", "orm/mapper.py")
+
+
+def _set_factors(e, env, depth=4):
+    """operands of a set expression built with set(X) / X.intersection(Y) / X & Y / X.keys() (difference operands are not factors:
+    they do not bound the result), as text; single-definition locals are followed"""
+    from ._helpers_rob_f2 import resolve_name
+    if isinstance(e, ast.Name):
+        r = resolve_name(env, e)
+        if r is not e:
+            return {e.id} | _set_factors(r, env, depth - 1)   # the local itself and what it stands for
+    if depth <= 0:
+        return {unparse(e)}
+    if isinstance(e, ast.Call) and isinstance(e.func, ast.Name) and e.func.id in ("set", "frozenset", "list", "tuple", "sorted") and len(e.args) == 1:
+        return _set_factors(e.args[0], env, depth - 1)
+    if isinstance(e, ast.Call) and isinstance(e.func, ast.Attribute):
+        if e.func.attr == "intersection":
+            out = _set_factors(e.func.value, env, depth - 1)
+            for a in e.args:
+                out |= _set_factors(a, env, depth - 1)
+            return out
+        if e.func.attr in ("difference", "copy"):
+            return _set_factors(e.func.value, env, depth - 1)
+        if e.func.attr == "keys" and not e.args:
+            return _set_factors(e.func.value, env, depth - 1)
+    if isinstance(e, ast.BinOp) and isinstance(e.op, ast.BitAnd):
+        return _set_factors(e.left, env, depth - 1) | _set_factors(e.right, env, depth - 1)
+    if isinstance(e, ast.BinOp) and isinstance(e.op, ast.Sub):
+        return _set_factors(e.left, env, depth - 1)
+    return {unparse(e)}
+
+
+@R.rule("C36-R8", floor=1, template="T-KEY",
+        desc="the flush reads the current value of every attribute that HAS history in a way that tolerates `no current value`: in the flush "
+             "modules, a loop / comprehension whose keys are drawn from <state>.committed_state may subscript another mapping with the key only "
+             "if that mapping bounds the key set (an intersection operand), the read is dominated by `key in mapping`, or the mapping is total "
+             "over attribute keys (table with reasons) -- `del obj.attr` leaves the key in committed_state (history: deleted=[old]) and removes "
+             "it from the instance dict")
+def r8(ctx):
+    from ._helpers_rob_f2 import dominating_guards, atoms as _f2_atoms
+    from ._helpers_rules_d import qualname as _qn
+    n_inst = 0
+    for rel in HISTORY_CONSUMERS:
+        m = ctx.index.module(rel)
+        if "committed_state" not in m.source:
+            continue
+        pm = m.parents()
+        for fn in [n for n in ast.walk(m.tree) if isinstance(n, (ast.FunctionDef, ast.AsyncFunctionDef))]:
+            env = _env_of(fn)
+            gens = []    # (key variable, iterable, region in which the key is used)
+            for n in walk_local(fn):
+                if isinstance(n, ast.For) and isinstance(n.target, ast.Name):
+                    gens.append((n.target.id, n.iter, n.body, n))
+                elif isinstance(n, (ast.ListComp, ast.SetComp, ast.GeneratorExp, ast.DictComp)):
+                    for gnr in n.generators:
+                        if isinstance(gnr.target, ast.Name):
+                            gens.append((gnr.target.id, gnr.iter, [n], n))
+            for kvar, it, region, owner in gens:
+                factors = _set_factors(it, env)
+                hist = [x for x in factors if x.endswith(".committed_state")]
+                if not hist:
+                    continue
+                q = (_qn(pm, fn) + "." if _qn(pm, fn) else "") + fn.name
+                g = None
+                for st in region:
+                    for sub_ in ast.walk(st):
+                        if not (isinstance(sub_, ast.Subscript) and isinstance(sub_.ctx, ast.Load) and isinstance(sub_.slice, ast.Name) and sub_.slice.id == kvar):
+                            continue
+                        mp_txt = unparse(sub_.value)
+                        n_inst += 1
+                        ctx.functions_analysed.add(f"{rel}::{q}")
+                        key = f"{rel}::{q}:history-key-read[{mp_txt}]"
+                        loc = f"{m.path}:{sub_.lineno}"
+                        if mp_txt in factors:
+                            ctx.ok(key, f"`{mp_txt}` bounds the key set ({unparse(it)[:70]})")
+                            continue
+                        last = mp_txt.rsplit(".", 1)[-1]
+                        if last in TOTAL_OVER_HISTORY_KEYS:
+                            ctx.ok(key, TOTAL_OVER_HISTORY_KEYS[last], nontrivial=False)
+                            continue
+                        guarded = False
+                        if isinstance(owner, ast.For):
+                            g = g or ctx.cfg(fn)
+                            guarded = any(a == f"{kvar} in {mp_txt}" and p for t, pol in dominating_guards(g, pm, sub_) for a, p in _f2_atoms(t, pol, env))
+                        ctx.check(guarded, key,
+                                  f"`{mp_txt}[{kvar}]` is read for every key of `{hist[0]}` ({unparse(it)[:80]}), but `{mp_txt}` does not bound that key set: an "
+                                  f"attribute that was deleted (`del obj.attr`: history deleted=[old], no current value) is in committed_state and not in "
+                                  f"`{mp_txt}` -- the flush raises KeyError instead of persisting the reported difference (the column set to NULL)",
+                                  f"dominated by `{kvar} in {mp_txt}`", loc)
+    ctx.require(n_inst >= 1, "no consumer of committed_state keys found in the flush modules")
+
+
 # ------------------------------------------------------------------------------------------ self-test battery
 # R1
 R.mutant("capture-guard-dropped", STATE, sub("            if attr.key not in self.committed_state or is_userland:\n", "            if attr.key in dict_ or is_userland:\n"), "C36-R1")
@@ -1680,3 +1781,18 @@ R.mutant("object-delete-extracted-fetch-without-flag", ATTR, chain(
         "        self.fire_remove_event(state, dict_, old, self._remove_token)\n"),
     sub("class _ScalarObjectAttributeImpl(_ScalarAttributeImpl):\n",
         "_OLD_REF_ACTIVE = PASSIVE_ONLY_PERSISTENT | NO_AUTOFLUSH | LOAD_AGAINST_COMMITTED\n_OLD_REF_QUIET = PASSIVE_NO_FETCH ^ INIT_OK | NO_RAISE\n\n\nclass _ScalarObjectAttributeImpl(_ScalarAttributeImpl):\n")), "C36-R7")
+
+
+# R8
+R.mutant("update-collects-without-reading-dict-by-get", "orm/persistence.py",
+         sub("                state.committed_state\n            ):\n                value = state_dict[propkey]\n",
+             "                state.committed_state\n            ):\n                value = state_dict.get(propkey)\n                col0 = mapper._columntoproperty_keys[propkey]\n"), "C36-R8")
+R.mutant("benign-update-history-keys-in-local-guarded-read", "orm/persistence.py",
+         sub("            for propkey in set(propkey_to_col).intersection(\n                state.committed_state\n            ):\n                value = state_dict[propkey]\n",
+             "            changed_keys = set(state.committed_state) & set(propkey_to_col)\n            for propkey in changed_keys:\n                if propkey not in state_dict:\n                    raise KeyError(propkey)\n                value = state_dict[propkey]\n"), None)
+R.mutant("benign-update-keys-bounded-by-instance-dict", "orm/persistence.py",
+         sub("            for propkey in set(propkey_to_col).intersection(\n                state.committed_state\n            ):\n                value = state_dict[propkey]\n",
+             "            for propkey in (\n                set(propkey_to_col)\n                .intersection(state.committed_state)\n                .intersection(state_dict)\n            ):\n                value = state_dict[propkey]\n"), None)
+R.mutant("insert-collects-history-keys-reads-dict-by-subscript", "orm/persistence.py",
+         sub("        for propkey in set(propkey_to_col).intersection(state_dict):\n            value = state_dict[propkey]\n",
+             "        for propkey in set(propkey_to_col).intersection(\n            state.committed_state\n        ):\n            value = state_dict[propkey]\n"), "C36-R8")
